@@ -58,10 +58,16 @@ const (
 	c20UpdateTime = 1700000000
 )
 
-// Name pools are chosen to force collisions: "ab1" matches both group names "a" and "ab" (longest
-// prefix decides), "a1" only "a", "b1" only "b"; every pool is barely larger than the number of
-// entities so that renames necessarily reuse freed names.
-var c20MetricNames = []string{"a1", "ab1", "b1"}
+// Name pools are chosen to force collisions and to put a metric name in every position relative to
+// the group names it does and does not match (outer group "a", nested inner group "ab", unrelated
+// group "b"; MetricsStorage scans the groups sorted by name descending):
+//   "a1"  matches "a" only and sorts BEFORE the inner group name  (a < a1 < ab < b)
+//   "ab1" matches "a" and "ab": the longest prefix decides          (a < ab < ab1 < b)
+//   "ac1" matches "a" only and sorts AFTER the inner group name: a non-matching group lies between
+//         the metric name and its match in the scan order           (a < ab < ac1 < b)
+//   "b1"  matches "b" only; both other groups sort before its match (a < ab < b < b1)
+// With 3 metrics over 4 names and 2 groups over 3 names renames still mostly reuse freed names.
+var c20MetricNames = []string{"a1", "ab1", "ac1", "b1"}
 var c20GroupNames = []string{"a", "ab", "b"}
 
 const (
